@@ -443,7 +443,7 @@ fn set_mutants(base: &MSet, ctx: &Ctx, foreign: &[MSeg]) -> Vec<Mutant> {
 
 static SLOWEST_NS: AtomicU64 = AtomicU64::new(0);
 /// (start, witness) of the calls in flight, for the watchdog.
-static IN_FLIGHT: Mutex<BTreeMap<u64, (Instant, String)>> = Mutex::new(BTreeMap::new());
+static IN_FLIGHT: Mutex<BTreeMap<u64, (Instant, MSet, u64, u64)>> = Mutex::new(BTreeMap::new());
 static CALL_NO: AtomicU64 = AtomicU64::new(0);
 
 enum Eval {
@@ -457,7 +457,7 @@ fn eval(set: &MSet, src: u64, dst: u64, guard: bool) -> Eval {
     let ncs: Vec<UnsignedPathSegment> = set.non_cores.iter().map(|s| s.to_crate()).collect();
     let no = CALL_NO.fetch_add(1, Ordering::Relaxed);
     if guard {
-        IN_FLIGHT.lock().unwrap().insert(no, (Instant::now(), serde_json::to_string(&json!({"set": set.to_json(), "src": src, "dst": dst})).unwrap()));
+        IN_FLIGHT.lock().unwrap().insert(no, (Instant::now(), set.clone(), src, dst));
     }
     let t0 = Instant::now();
     let r = vpc::catch(|| combine(IsdAsn::from_u64(src), IsdAsn::from_u64(dst), cores, ncs));
@@ -490,15 +490,28 @@ fn check_path(o: &Obs, set: &MSet) -> Vec<(String, String)> {
     if p.to_bytes() != o.bytes {
         v.push(("returned-path-re-encodes-differently".into(), format!("{} vs {}", vpc::hex(&p.to_bytes()), vpc::hex(&o.bytes))));
     }
-    if p.hops.is_empty() || p.hops.len() > 63 || p.curr_hf != 0 || p.curr_inf != 0 {
-        v.push(("returned-path-not-at-its-start-or-oversized".into(), format!("{} hops, curr_hf {}, curr_inf {}", p.hops.len(), p.curr_hf, p.curr_inf)));
+    // SCION: CurrHF is a 6-bit index, so a path holds at most 64 hop fields (scionproto MaxHops = 64)
+    if p.hops.len() > 64 {
+        v.push(("path-with-more-than-64-hop-fields".into(), format!("{} hop fields, segment lengths {:?}", p.hops.len(), p.seg_len)));
     }
-    // hop-field interface ids vs metadata interface list
+    if p.hops.is_empty() || p.curr_hf != 0 || p.curr_inf != 0 {
+        v.push(("returned-path-not-at-its-start".into(), format!("{} hops, curr_hf {}, curr_inf {}", p.hops.len(), p.curr_hf, p.curr_inf)));
+    }
+    // hop-field interface ids (in travel direction, as a router uses them) vs metadata interface list
     let ids = util::used_ids(&p);
     let meta_ids: Vec<u16> = o.ifaces.iter().map(|x| x.1).collect();
     if ids != meta_ids {
-        let class = if ids.contains(&0) { "metadata-interfaces-differ-from-hop-fields:path-crosses-interface-0" } else { "metadata-interfaces-differ-from-hop-fields" };
-        v.push((class.into(), format!("hop fields cross interface ids {ids:?}, metadata lists {:?}", o.ifaces.iter().map(|(a, i)| format!("{}#{}", util::ia_str(*a), i)).collect::<Vec<_>>())));
+        let nz: Vec<u16> = ids.iter().copied().filter(|x| *x != 0).collect();
+        let cause = if ids.contains(&0) {
+            "path-crosses-interface-0"
+        } else if meta_ids.len() > ids.len() {
+            "metadata-lists-interface-not-crossed"
+        } else if nz.len() > meta_ids.len() {
+            "metadata-misses-crossed-interface"
+        } else {
+            "different-ids"
+        };
+        v.push((format!("metadata-interfaces-differ-from-hop-fields:{cause}"), format!("hop fields cross interface ids {ids:?}, metadata lists {:?}", o.ifaces.iter().map(|(a, i)| format!("{}#{}", util::ia_str(*a), i)).collect::<Vec<_>>())));
     }
     // every AS visit = 2 consecutive metadata interfaces of the same AS (except first/last)
     if o.ifaces.len() % 2 == 0 && ids == meta_ids {
@@ -701,21 +714,16 @@ fn base_set(topo: &Topo, segs: &refseg::RSegs, src: AsIdx, dst: AsIdx) -> MSet {
     MSet { cores: ps.core.iter().map(|&i| mk(&segs.core[i])).collect(), non_cores: ps.up.iter().chain(ps.down.iter()).map(|&i| mk(&segs.up_down[i])).collect() }
 }
 
-/// Explore one topology: every ordered pair, every single mutant; `pairs`: also every mutant of every mutant.
-fn explore(run: &vpc::Run, topo: &Topo, pairs: bool) -> Tally {
+/// Explore one (topology, ordered pair): every single mutant; `pairs`: also every mutant of every mutant.
+fn explore(run: &vpc::Run, topo: &Topo, segs: &refseg::RSegs, src: AsIdx, dst: AsIdx, pairs: bool) -> Tally {
     let mut t = Tally::default();
-    let segs = refseg::beacon(topo, BASE_TS);
-    let n = topo.ases.len();
     let mut ias: Vec<u64> = topo.ases.iter().map(|a| a.ia()).collect();
     ias.push((7u64 << 48) | 0xff00_0000_0777);
-    for src in 0..n {
-        for dst in 0..n {
-            if src == dst {
-                continue;
-            }
-            let base = base_set(topo, &segs, src, dst);
+    {
+        {
+            let base = base_set(topo, segs, src, dst);
             if base.len() == 0 {
-                continue;
+                return t;
             }
             let (s_ia, d_ia) = (topo.ases[src].ia(), topo.ases[dst].ia());
             let ctx = Ctx { ias: ias.clone(), src: s_ia, dst: d_ia };
@@ -727,7 +735,7 @@ fn explore(run: &vpc::Run, topo: &Topo, pairs: bool) -> Tally {
             for (class, what) in &b.violations {
                 run.violation(class, &format!("{} {}->{} unmutated: {what}", topo.name, util::ia_str(s_ia), util::ia_str(d_ia)), witness(&topo.name, s_ia, d_ia, "none", &base, &BTreeSet::new()));
             }
-            let Some(bobs) = b.paths else { continue };
+            let Some(bobs) = b.paths else { return t };
             let base_ifaces = iface_set(&bobs);
             let mut rest_cache = BTreeMap::new();
             let singles = set_mutants(&base, &ctx, &foreign);
@@ -752,6 +760,8 @@ fn explore(run: &vpc::Run, topo: &Topo, pairs: bool) -> Tally {
 fn scaling(run: &vpc::Run, topo: &Topo, t: &mut Tally, series: &mut Vec<Value>) {
     let segs = refseg::beacon(topo, BASE_TS);
     let n = topo.ases.len();
+    // the non-core pair whose unmutated result is largest
+    let mut best: Option<(usize, usize, usize)> = None;
     for src in 0..n {
         for dst in 0..n {
             if src == dst || topo.ases[src].core || topo.ases[dst].core {
@@ -761,6 +771,17 @@ fn scaling(run: &vpc::Run, topo: &Topo, t: &mut Tally, series: &mut Vec<Value>) 
             if base.cores.is_empty() || base.non_cores.len() < 2 {
                 continue;
             }
+            if let Eval::Paths(p) = eval(&base, topo.ases[src].ia(), topo.ases[dst].ia(), true) {
+                if best.map_or(true, |b| p.len() > b.2) {
+                    best = Some((src, dst, p.len()));
+                }
+            }
+        }
+    }
+    {
+        {
+            let Some((src, dst, _)) = best else { return };
+            let base = base_set(topo, &segs, src, dst);
             let (s_ia, d_ia) = (topo.ases[src].ia(), topo.ases[dst].ia());
             for distinct_ids in [false, true] {
                 let mut row = vec![];
@@ -801,7 +822,6 @@ fn scaling(run: &vpc::Run, topo: &Topo, t: &mut Tally, series: &mut Vec<Value>) 
                     series.push(json!({"topology": topo.name, "src": util::ia_str(s_ia), "dst": util::ia_str(d_ia), "replicas_with_distinct_interface_ids": distinct_ids, "series": row}));
                 }
             }
-            return; // one pair per topology is enough for the series
         }
     }
 }
@@ -855,8 +875,9 @@ pub fn run(args: &vpc::Args) -> ! {
         loop {
             std::thread::sleep(Duration::from_millis(500));
             let g = IN_FLIGHT.lock().unwrap();
-            for (_, (t0, w)) in g.iter() {
+            for (_, (t0, set, src, dst)) in g.iter() {
                 if t0.elapsed() > BUDGET * 2 {
+                    let w = serde_json::to_string(&json!({"set": set.to_json(), "src": src, "dst": dst, "mutation": "hang", "touched_segment_ids": []})).unwrap();
                     let dir = vpc::verif_root().join("replays").join("C19");
                     let _ = std::fs::create_dir_all(&dir);
                     let f = dir.join("no-return-within-budget-hang.json");
@@ -871,23 +892,35 @@ pub fn run(args: &vpc::Args) -> ! {
     let pairs_max_n = run.tier.pick(0, 2);
     let mut total = Tally::default();
     let mut per = vec![];
-    for n in 1..=max_n {
-        let topos = reftopo_enum::enumerate(n, 2);
-        let pairs = n <= pairs_max_n;
-        let tallies: Vec<Tally> = topos.par_iter().map(|t| explore(&run, t, pairs)).collect();
+    // one task per (topology, ordered pair)
+    let explore_all = |topos: &[Topo], pairs: bool| -> Tally {
+        let segs: Vec<refseg::RSegs> = topos.iter().map(|t| refseg::beacon(t, BASE_TS)).collect();
+        let mut tasks = vec![];
+        for (ti, t) in topos.iter().enumerate() {
+            for src in 0..t.ases.len() {
+                for dst in 0..t.ases.len() {
+                    if src != dst {
+                        tasks.push((ti, src, dst));
+                    }
+                }
+            }
+        }
+        let tallies: Vec<Tally> = tasks.par_iter().map(|&(ti, src, dst)| explore(&run, &topos[ti], &segs[ti], src, dst, pairs)).collect();
         let mut tn = Tally::default();
         for t in tallies {
             tn.merge(t);
         }
+        tn
+    };
+    for n in 1..=max_n {
+        let topos = reftopo_enum::enumerate(n, 2);
+        let pairs = n <= pairs_max_n;
+        let tn = explore_all(&topos, pairs);
         per.push(json!({"n": n, "topologies": topos.len(), "base_sets": tn.bases, "mutated_sets": tn.mutants, "pairs_of_mutations": pairs, "combine_calls": tn.calls}));
         total.merge(tn);
     }
     let cur = reftopo_enum::curated();
-    let tallies: Vec<Tally> = cur.par_iter().map(|t| explore(&run, t, false)).collect();
-    let mut tn = Tally::default();
-    for t in tallies {
-        tn.merge(t);
-    }
+    let tn = explore_all(&cur, false);
     per.push(json!({"curated": cur.len(), "base_sets": tn.bases, "mutated_sets": tn.mutants, "pairs_of_mutations": false, "combine_calls": tn.calls}));
     total.merge(tn);
     // scaling series on the curated shapes and the n = 4 shapes with two non-cores
